@@ -243,7 +243,7 @@ def _description_rule(node: Node) -> list:
     warning = None
     content = get_text_content(node)
     if not content:
-        parent = node.parent.name
+        parent = node.parent.name if node.parent is not None else None
         if parent == 'connectionDefinition':
             warning = EvaluationWarning.CONNECTION_DEFINITION_DESCRIPTION_MISSING
         elif parent == 'designDescription':
